@@ -1,1 +1,281 @@
-(* Front/Resolve.v -- stub, to be filled *)
+(* Front/Resolve.v -- layer F2: executable model of asn1rs-model/src/asn/resolve_scope.rs (ResolveScope,
+   MultiModuleResolver), resolve.rs (Resolver / TryResolve) and the try_resolve methods of asn/mod.rs,
+   integer.rs, size.rs, bit_string.rs, components.rs, choice.rs, model.rs.
+
+   Rust                                              model
+   -----------------------------------------------   ------------------------------------------------
+   ResolveScope { model, scope }                     the pair (model, scope) passed to every function
+   model_with_imported_item                          model_with_imported_item
+   value_reference / definition (recursive through   value_reference / definition: fuel S (length scope); a chain of
+     the imports of the module found)                  imports longer than the scope revisits a module, where the Rust
+                                                       recursion never returns (stack overflow): Diverges
+   Resolver<usize> / <i64> / <LiteralValue> /        resolve_usize / resolve_i64 / resolve_literal / resolve_type
+     <Type<Unresolved>>
+   `value as usize` (i64 -> usize)                   Z.modulo v 2^64
+   Size::reconsider_constraints                      reconsider_constraints
+   Asn::try_resolve (enumerated-default special      resolve_default
+     case)
+   Type::try_resolve and friends                     resolve_ty
+   ResolveScope::try_resolve                         resolve_model
+   MultiModuleResolver::try_resolve_all              resolve_all
+   Model::try_resolve (scope = the model itself)     resolve_single                                              *)
+From A1 Require Export Front.Parse.
+Local Open Scope N_scope.
+
+Inductive lookup (A : Type) : Type :=
+| Found (a : A)
+| NotFound
+| Diverges.
+Arguments Found {A} a.
+Arguments NotFound {A}.
+Arguments Diverges {A}.
+
+Definition oidc_eqb (a b : oidc) : bool :=
+  match a, b with
+  | NameForm s, NameForm t => str_eqb s t
+  | NumberForm n, NumberForm m => n =? m
+  | NameAndNumberForm s n, NameAndNumberForm t m => str_eqb s t && (n =? m)
+  | _, _ => false
+  end.
+
+Fixpoint oid_eqb (a b : list oidc) : bool :=
+  match a, b with
+  | [], [] => true
+  | x :: a', y :: b' => oidc_eqb x y && oid_eqb a' b'
+  | _, _ => false
+  end.
+
+(* m.oid.is_some() && m.oid.eq(&import.from_oid) *)
+Definition oid_matches (m_oid0 imp_oid : option (list oidc)) : bool :=
+  match m_oid0, imp_oid with
+  | Some a, Some b => oid_eqb a b
+  | _, _ => false
+  end.
+
+Section Scope.
+  Variable scope : list umodel.
+
+  Definition model_with_imported_item (model : umodel) (item : str) : option umodel :=
+    match find (fun i => existsb (str_eqb item) (i_what i)) (m_imports model) with
+    | None => None
+    | Some imp =>
+        find (fun m => oid_matches (m_oid m) (i_from_oid imp) || str_eqb (m_name m) (i_from imp)) scope
+    end.
+
+  Fixpoint value_reference (fuel : nat) (model : umodel) (name : str) : lookup literal :=
+    match find (fun vr => str_eqb (fst (fst vr)) name) (m_value_references model) with
+    | Some vr => Found (snd vr)
+    | None =>
+        match model_with_imported_item model name with
+        | None => NotFound
+        | Some m' => match fuel with O => Diverges | S f => value_reference f m' name end
+        end
+    end.
+
+  Fixpoint definition (fuel : nat) (model : umodel) (name : str) : lookup uasn :=
+    match find (fun d => str_eqb (fst d) name) (m_definitions model) with
+    | Some d => Found (snd d)
+    | None =>
+        match model_with_imported_item model name with
+        | None => NotFound
+        | Some m' => match fuel with O => Diverges | S f => definition f m' name end
+        end
+    end.
+
+  Definition lookup_fuel : nat := S (length scope).
+
+  Variable model : umodel.
+
+  Definition name_prefix : str := [110; 97; 109; 101; 58; 32].     (* "name: " *)
+
+  Definition U64_MOD : Z := 18446744073709551616%Z.
+
+  Definition resolve_usize (lor : lit_or_ref N) : rres N :=
+    match lor with
+    | Lit n => ROk n
+    | Ref name =>
+        match value_reference lookup_fuel model name with
+        | Found (LInteger v) => ROk (Z.to_N (Z.modulo v U64_MOD))          (* value as usize *)
+        | Found _ => RErr (FailedToParseLiteral (name_prefix ++ name))
+        | NotFound => RErr (FailedToResolveReference name)
+        | Diverges => RDiverge
+        end
+    end.
+
+  Definition resolve_i64 (lor : lit_or_ref Z) : rres Z :=
+    match lor with
+    | Lit z => ROk z
+    | Ref name =>
+        match value_reference lookup_fuel model name with
+        | Found (LInteger v) => ROk v
+        | Found _ => RErr (FailedToParseLiteral (name_prefix ++ name))
+        | NotFound => RErr (FailedToResolveReference name)
+        | Diverges => RDiverge
+        end
+    end.
+
+  Definition resolve_literal (lor : lit_or_ref literal) : rres literal :=
+    match lor with
+    | Lit l => ROk l
+    | Ref name =>
+        match value_reference lookup_fuel model name with
+        | Found l => ROk l
+        | NotFound => RErr (FailedToResolveReference name)
+        | Diverges => RDiverge
+        end
+    end.
+
+  (* Size<usize>::reconsider_constraints *)
+  Definition reconsider_constraints (s : size N) : size N :=
+    match s with
+    | SRange lo hi ext =>
+        if (lo =? 0) && (hi =? I64_MAX_N) && negb ext then SAny
+        else if lo =? hi then SFix lo ext
+        else s
+    | _ => s
+    end.
+
+  Definition resolve_size (s : size (lit_or_ref N)) : rres (size N) :=
+    match s with
+    | SAny => ROk SAny
+    | SFix n e => let^ n' := resolve_usize n in ROk (reconsider_constraints (SFix n' e))
+    | SRange lo hi e =>
+        let^ lo' := resolve_usize lo in
+        let^ hi' := resolve_usize hi in
+        ROk (reconsider_constraints (SRange lo' hi' e))
+    end.
+
+  Definition resolve_opt_i64 (o : option (lit_or_ref Z)) : rres (option Z) :=
+    match o with
+    | None => ROk None
+    | Some l => let^ v := resolve_i64 l in ROk (Some v)
+    end.
+
+  (* the `default` part of Asn::try_resolve, given the resolved type *)
+  Definition resolve_default (t : rty) (d : option (lit_or_ref literal)) : rres (option literal) :=
+    match d with
+    | None => ROk None
+    | Some (Lit l) => ROk (Some l)
+    | Some (Ref name) =>
+        let fallback := let^ l := resolve_literal (Ref name) in ROk (Some l) in
+        match t with
+        | TRef referenced _ =>
+            match definition lookup_fuel model referenced with
+            | Found (_, TEnumerated variants _, _) =>
+                match find (fun v => str_eqb name (fst v)) variants with
+                | Some v => ROk (Some (LEnumVariant referenced (fst v)))
+                | None => fallback
+                end
+            | Diverges => RDiverge
+            | _ => fallback
+            end
+        | _ => fallback
+        end
+    end.
+
+  Definition rfield : Type := afield N Z literal.
+
+  Fixpoint resolve_ty (t : uty) : rres rty :=
+    match t with
+    | TBoolean => ROk TBoolean
+    | TInteger (lo, hi, e) c =>
+        let^ lo' := resolve_opt_i64 lo in
+        let^ hi' := resolve_opt_i64 hi in
+        ROk (TInteger (lo', hi', e) c)
+    | TString s c => let^ s' := resolve_size s in ROk (TString s' c)
+    | TOctetString s => let^ s' := resolve_size s in ROk (TOctetString s')
+    | TBitString s c => let^ s' := resolve_size s in ROk (TBitString s' c)
+    | TNull => ROk TNull
+    | TOptional i => let^ i' := resolve_ty i in ROk (TOptional i')
+    | TDefault i l => let^ i' := resolve_ty i in ROk (TDefault i' l)
+    | TSequence fs e =>
+        let^ fs' := (fix go (l : list ufield) : rres (list rfield) :=
+                       match l with
+                       | [] => ROk []
+                       | (n, (tag, t0, d)) :: r =>
+                           let^ t0' := resolve_ty t0 in
+                           let^ d' := resolve_default t0' d in
+                           let^ r' := go r in
+                           ROk ((n, (tag, t0', d')) :: r')
+                       end) fs in
+        ROk (TSequence fs' e)
+    | TSequenceOf i s =>
+        let^ i' := resolve_ty i in
+        let^ s' := resolve_size s in
+        ROk (TSequenceOf i' s')
+    | TSet fs e =>
+        let^ fs' := (fix go (l : list ufield) : rres (list rfield) :=
+                       match l with
+                       | [] => ROk []
+                       | (n, (tag, t0, d)) :: r =>
+                           let^ t0' := resolve_ty t0 in
+                           let^ d' := resolve_default t0' d in
+                           let^ r' := go r in
+                           ROk ((n, (tag, t0', d')) :: r')
+                       end) fs in
+        ROk (TSet fs' e)
+    | TSetOf i s =>
+        let^ i' := resolve_ty i in
+        let^ s' := resolve_size s in
+        ROk (TSetOf i' s')
+    | TEnumerated v e => ROk (TEnumerated v e)
+    | TChoice vs e =>
+        let^ vs' := (fix go (l : list (str * option atag * uty)) : rres (list (str * option atag * rty)) :=
+                       match l with
+                       | [] => ROk []
+                       | (n, tag, t0) :: r =>
+                           let^ t0' := resolve_ty t0 in
+                           let^ r' := go r in
+                           ROk ((n, tag, t0') :: r')
+                       end) vs in
+        ROk (TChoice vs' e)
+    | TRef n tag => ROk (TRef n tag)
+    end.
+
+  (* Asn::try_resolve *)
+  Definition resolve_asn (a : uasn) : rres rasn :=
+    let '(tag, t, d) := a in
+    let^ t' := resolve_ty t in
+    let^ d' := resolve_default t' d in
+    ROk (tag, t', d').
+
+  Fixpoint resolve_values (l : list (str * uasn * literal)) : rres (list (str * rasn * literal)) :=
+    match l with
+    | [] => ROk []
+    | (n, a, v) :: r =>
+        let^ a' := resolve_asn a in
+        let^ r' := resolve_values r in
+        ROk ((n, a', v) :: r')
+    end.
+
+  Fixpoint resolve_definitions (l : list (str * uasn)) : rres (list (str * rasn)) :=
+    match l with
+    | [] => ROk []
+    | (n, a) :: r =>
+        let^ a' := resolve_asn a in
+        let^ r' := resolve_definitions r in
+        ROk ((n, a') :: r')
+    end.
+
+  (* ResolveScope::try_resolve *)
+  Definition resolve_model : rres (amodel rasn) :=
+    let^ vals := resolve_values (m_value_references model) in
+    let^ defs := resolve_definitions (m_definitions model) in
+    ROk {| m_name := m_name model; m_oid := m_oid model; m_imports := m_imports model;
+           m_definitions := defs; m_value_references := vals |}.
+End Scope.
+
+(* MultiModuleResolver::try_resolve_all *)
+Fixpoint resolve_each (scope : list umodel) (ms : list umodel) : rres (list (amodel rasn)) :=
+  match ms with
+  | [] => ROk []
+  | m :: r =>
+      let^ m' := resolve_model scope m in
+      let^ r' := resolve_each scope r in
+      ROk (m' :: r')
+  end.
+
+Definition resolve_all (ms : list umodel) : rres (list (amodel rasn)) := resolve_each ms ms.
+
+(* Model::try_resolve: ResolveScope::from(self), scope = the model alone *)
+Definition resolve_single (m : umodel) : rres (amodel rasn) := resolve_model [m] m.
